@@ -8,6 +8,8 @@ likely (0.45 / 0.45 / 0.10 blank) - the optical evidence is tied and the languag
 Toy LM.  Hidden state = tuple of the symbols consumed so far (0 = line break, c + 1 = letter c); it prefers, by a factor
 of 3, the letters whose number has the parity of a hash of the whole state.  Any context that leaks into a line flips
 that parity in about half of the cases and changes the transcription.
+Behind the real LMWrapper ("wrapped" flavours) the same LM is a torch module with dropout layers, constructed in training mode
+(see _WModel / _WOut): the wrapper must put it into evaluation mode or the scores depend on the process-wide torch RNG.
 """
 import numpy as np
 import scipy.sparse as sp
@@ -92,14 +94,17 @@ def hist_of(h):
 # cell, dropout before the output layer), the toy LM CONTAINS DROPOUT, in the recurrent part and in the output layer, and is handed
 # to LMWrapper in training mode, as torch modules are after construction.  In evaluation mode (LMWrapper's obligation) dropout is
 # the identity and the LM is exactly the context LM above; left in training mode it draws masks from the process-wide torch RNG:
-# a consumed symbol is zeroed or doubled, a score zeroed or doubled, so the result of a page depends on everything decoded before.
-DROPOUT = 0.5
+# a consumed symbol is zeroed or tripled, a score zeroed or doubled, so the result of a page depends on everything decoded before.
+# (Recurrent part: p = 2/3, i.e. scale 3 - with an even scale every corrupted symbol number would be even and the parity of the
+# state hash, which is all the scores depend on, would no longer depend on the masks drawn.)
+DROPOUT_MODEL = 2.0 / 3.0
+DROPOUT_OUT = 0.5
 
 
 class _WModel(torch.nn.Module):
     def __init__(self):
         super().__init__()
-        self.drop = torch.nn.Dropout(DROPOUT)
+        self.drop = torch.nn.Dropout(DROPOUT_MODEL)
 
     def forward(self, xs, hs):
         h = hs.clone()
@@ -116,7 +121,7 @@ class _WOut(torch.nn.Module):
     def __init__(self, nc):
         super().__init__()
         self.nc = nc
-        self.drop = torch.nn.Dropout(DROPOUT)
+        self.drop = torch.nn.Dropout(DROPOUT_OUT)
 
     def forward(self, hs):
         rows = []
